@@ -39,7 +39,8 @@ META = dict(
     assumptions=["handlers do not suppress cancellation (the statement says in-flight handlers are cancelled, not awaited)",
                  "when a stop request and a producer error (or a cancellation) happen in the same run, either legal "
                  "outcome is accepted (no identity/timing demand while faults overlap)",
-                 "external cancellation is injected once per run, while run() has not started its cleanup phase"],
+                 "external cancellation is injected once per run, at a seeded step (also while run() is cleaning up after a "
+                 "stop: exit path stop_then_cancel); finalize() is counted when called"],
     probes_expected=["inflight_at_trigger", "rt_pool_full_job_and_event_due", "finalize_failed", "main_never_returns",
                      "main_returns_early", "init_failed_before_any_event", "log_record_after_failed_run"],
     states_measure="distinct (dispatcher, exit path, outcome, handlers in flight at trigger) tuples",
